@@ -18,6 +18,7 @@ pub fn exec_case(case: &Value) -> Value {
         "xpath" | "xpath_pair" => props::c18::exec(case),
         "num_cmp" => props::c04::exec_num_cmp(case),
         "parse_cond" | "parse_match" => props::parse::exec(case),
+        "load_text" => props::c15::exec(case),
         _ => serde_json::json!({ "error": format!("unknown op {op}") }),
     }
 }
@@ -30,6 +31,7 @@ pub fn gen_cases(prop: &str, tier: &str, seed: u64, out: &mut dyn FnMut(Value)) 
         "C04" => props::c04::gen(tier, seed, out),
         "C02" => props::c02::gen(tier, seed, out),
         "C16" => props::c16::gen(tier, seed, out),
+        "C15" => props::c15::gen(tier, seed, out),
         _ => return Err(format!("no generator for {prop}")),
     }
     Ok(())
